@@ -424,6 +424,25 @@ func (ex *Exec) invoke(fr *Frame, st *State, cc *ssa.CallCommon, args []Val, res
 		full = "error." + mname
 	}
 	ex.oblige(fr, st, "nil", "", not(eq(recv.L[0], "0")), pos, "method call on nil interface: "+ex.srcLine(pos))
+	// contract on the interface method itself (preconditions every implementation relies on)
+	if ict := ex.C.Funcs[typeContractKey(cc.Value.Type())+"."+mname]; ict != nil && ex.specMode == 0 {
+		vars := map[string]Val{"recv": recv}
+		for i, a := range args {
+			vars[fmt.Sprintf("arg%d", i)] = a
+		}
+		for _, cl := range ict.Requires {
+			en := ex.newEnv(fr, st, ex.preState, vars)
+			t, err := en.evalBool(cl.E)
+			if err != nil {
+				ex.errors = append(ex.errors, fmt.Sprintf("%s: interface method requires: %v", cl.Line, err))
+				continue
+			}
+			o := ex.oblige(fr, st, "pre", cl.Label+"@call:"+typeContractKey(cc.Value.Type())+"."+mname, t, pos, "precondition of interface method "+mname+": "+cl.Src+" at "+ex.srcLine(pos))
+			if o != nil {
+				o.Props = cl.Props
+			}
+		}
+	}
 	if sp, ok := specs[full]; ok {
 		ex.trusted[full] = true
 		r := sp(ex, fr, st, &callCtx{recv: &recv, args: args, argVals: cc.Args, pos: pos, sig: cc.Signature()})
